@@ -1,9 +1,9 @@
-\* quick core facet: one account, two validators, two vaults, one allowed denom, amounts 1..2, locks 0..4
+\* quick core facet: one account, two validators, three vaults, one allowed denom, amounts 0..2 (entries <= 3), locks -1..4
 \* (withdraw guard at the boundary, lock rule, index, vault life cycle); allowed denoms fixed => LocksCovered
 CONSTANTS
   Acct = {a1}
   Val = {v1, v2}
-  Vault = {k1, k2}
+  Vault = {k1, k2, k3}
   Denom = {d1}
   AmtSet = {0, 1, 2}
   CoinAmts = {1, 2}
@@ -12,7 +12,7 @@ CONSTANTS
   LockSet <- MCLocks
   MaxHi = 0
   U64Lim = 2000000
-  MaxEntry = 2
+  MaxEntry = 3
   InitAllowed = {d1}
 INIT InitFixed
 NEXT NextFixed
